@@ -9,8 +9,8 @@ from .alg import Poly, as_poly, AlgError, ONE
 from . import tens as T
 from .tens import Tens, Unsupported, ShapeError, is_sym
 
-BASE_VARYING = {"k", "k1", "x", "x1", "u", "I", "Idc", "F", "Fx", "Ix", "carry", "idx"}
-SCALAR_TAGS = {"s", "num", "dc", "Sum", "Mean", "Std", "Max", "Min", "Var", "RSum", "expc", "StdC", "MaxC", "MinC"}
+BASE_VARYING = {"k", "k1", "x", "x1", "u", "I", "F", "Fx", "Ix", "carry", "idx"}
+SCALAR_TAGS = {"s", "num", "dc", "Idc", "Sum", "Mean", "Std", "Max", "Min", "Var", "RSum", "expc", "StdC", "MaxC", "MinC"}
 
 _var_cache = {}
 
@@ -76,6 +76,8 @@ def sym_sum(e, lens):
     for c, const, var in split_terms(e, varies):
         base = Poly({const: c})
         if var:
+            if len(var) == 1 and var[0][0][0] == "I" and var[0][1] == 1 and len(var[0][0]) == 4:
+                continue  # I[m, X] is the inverse transform WITHOUT its mean mode: it sums to zero
             out = out + base * Poly.atom(("Sum", Poly({var: ONE}), lens))
         else:
             out = out + base * tot
@@ -378,16 +380,29 @@ def fft_inverse(it, t, axes, s, norm, node):
         if not ok:
             raise ShapeError(f"irfftn: requested shape {out_lens} does not fit spectrum axes {lens}")
     shape = t.shape[: t.ndim - n] + tuple(out_lens)
+    total = _total(out_lens)
+    unit = ("Idc", Poly.const(1), n) + tagx
 
     def lin(e):
-        return inverse_entry(e, n, tagx)
+        return inverse_entry(e, n, tagx, total)
 
     meta = dict(t.meta)
     meta.pop("fourier", None)
     return Tens(shape, [lin(e) for e in t.data], meta)
 
 
-def inverse_entry(e, n, tagx=()):
+def inverse_entry(e, n, tagx=(), total=None):
+    r = _inverse_entry(e, n, tagx)
+    # ifft of a pure mean-mode value c (no spectrum factor) is the constant field c / N^D
+    unit = ("Idc", Poly.const(1), n) + tuple(tagx)
+    if unit in r.atoms():
+        if total is None:
+            total = Poly.sym("N") ** n
+        r = alg.subs(r, {unit: as_poly(total).inverse()})
+    return r
+
+
+def _inverse_entry(e, n, tagx=()):
     groups = {}
     for m, c in e.t.items():
         mult = tuple((a, x) for a, x in m if (not varies(a)) or is_multiplier_atom(a))
